@@ -25,7 +25,7 @@ VALUES = [7, 2.5, -3, 123456789012, True, 'text', DT(2021, 3, 4, 5, 6, 7), datet
           ('$array', '=2*3'), ' =1+2', '\t=A1', "'=1+2", ' ',
           # array formulas whose stored text ends with a blank / a line break (typed after the formula)
           ('$array', '=2*3 '), ('$array', '=2*\n3\n')]
-TITLES = ['S1', 'Sheet 2', 'Лист3', 'x']
+TITLES = ['S1', '2024', 'Лист3', '1']      # two titles of digits that are not their positions
 
 
 def norm(v):
